@@ -43,14 +43,20 @@ def labels(n, m, scheme, rng=None):
     if scheme == 'confusable':
         # labels that differ only by case, Unicode normalisation form, padding or look like
         # numbers / keywords - and the empty string (a legal label)
-        pool_o = ['a', 'A', '\u00e9', 'e\u0301', '1', '01', ' 1', 'True', 'None', '', 'ß', 'SS', 'ss', 'ǅ', 'ǆ', '١']
+        pool_o = ['a', '', 'A', '\u00e9', 'e\u0301', '1', '01', ' 1', 'True', 'None', 'ß', 'SS', 'ss', 'ǅ', 'ǆ', '١']
         pool_p = ['x', 'X', '\u00f1', 'n\u0303', '0', '00', '0 ', 'False', 'none', 'İ', 'i', 'I', 'ı', '２', '2', 'null']
+        return ([pool_o[i] if i < len(pool_o) else f'o{i}' for i in range(n)],
+                [pool_p[j] if j < len(pool_p) else f'p{j}' for j in range(m)])
+    if scheme == 'composite':
+        # multi-character labels all of whose characters are labels of the same kind themselves
+        pool_o = ['a', 'b', 'ab', 'c', 'ba', 'abc', 'cab', 'aa', 'bc', 'd', 'dab', 'cc']
+        pool_p = ['1', '0', '10', '2', '01', '210', '11', '20', '3', '123', '00', '31']
         return ([pool_o[i] if i < len(pool_o) else f'o{i}' for i in range(n)],
                 [pool_p[j] if j < len(pool_p) else f'p{j}' for j in range(m)])
     raise ValueError(scheme)
 
 
-SCHEMES = ['rev', 'shuffled', 'shared', 'unicode', 'plain', 'confusable']
+SCHEMES = ['rev', 'shuffled', 'shared', 'unicode', 'plain', 'confusable', 'composite']
 
 
 def case(fam, rows, m, scheme, rng=None, n=None):
@@ -322,6 +328,23 @@ def longaxis(seed, count, tag='LONG'):
             yield case(tag + '-wide', cols, big, SCHEMES[k % 2])
 
 
+def repeated(seed, count, tag='REPEATED'):
+    """A small table (3-6 properties, 3-8 distinct rows) with every row repeated 80-500 times:
+    large extents with the structure (joint implications, conjunction columns) of a small table."""
+    rng = random.Random(f'{seed}/{tag}')
+    for k in range(count):
+        m = rng.randint(3, 6)
+        base = rnd_rows(rng, rng.randint(3, 8), m, rng.choice([.4, .6, .8]))
+        if k % 3 == 0:
+            base, m = decorate(base, m, rng.choice(['meet_col', 'dup_col', 'full_col', 'meet_row']), rng)
+        rows = []
+        for r in base:
+            rows += [r] * rng.randint(80, 500)
+        if k % 2:
+            rng.shuffle(rows)
+        yield case(tag, rows, m, SCHEMES[k % len(SCHEMES)], rng)
+
+
 def huge(seed, count, tag='HUGE'):
     """Thousands of members on one axis (2 900 - 6 500), a handful on the other; rows drawn
     from a few patterns so that the lattice stays tiny.  Reaches bit positions far beyond
@@ -430,6 +453,7 @@ def ctx_stream(tier, seed, *, scale=1.0, with_wide=True, max_rnd=None, with_huge
         if with_wide:
             yield from wide(seed, int(48 * scale))
         yield from manyrows(seed, int(12 * scale))
+        yield from repeated(seed, int(8 * scale))
         yield from (c for c in longaxis(seed, 2) if with_wide or len(c['properties']) < 64)
         if with_huge:
             yield from huge(seed, 4)
@@ -445,6 +469,7 @@ def ctx_stream(tier, seed, *, scale=1.0, with_wide=True, max_rnd=None, with_huge
         if with_wide:
             yield from wide(seed, int(1200 * scale))
         yield from manyrows(seed, int(300 * scale))
+        yield from repeated(seed, int(150 * scale))
         yield from (c for c in longaxis(seed, max(2, int(24 * scale))) if with_wide or len(c['properties']) < 64)
         if with_huge:
             yield from huge(seed, max(2, int(16 * scale)))
